@@ -2,6 +2,7 @@ import PqlModel.Props.C15
 import PqlModel.Props.C15Parse
 import PqlModel.Props.C16Semantics
 import PqlModel.Props.C15SplitIR
+import PqlModel.Props.C07OperatorIRParse
 #print axioms Pql.C15.C15_count
 #print axioms Pql.C15.C15_join
 #print axioms Pql.C15.C15_scan_local
@@ -25,3 +26,7 @@ import PqlModel.Props.C15SplitIR
 #print axioms Pql.LexIR.splitStatements_ir
 #print axioms Pql.LexIR.C15_split_ir
 #print axioms Pql.LexIR.C15_split_ir_needs_order
+#print axioms Pql.OpIR.C07_firstParse_ir
+#print axioms Pql.OpIR.C07_firstParse_stmt
+#print axioms Pql.OpIR.C07_Parse_tokens_ir
+#print axioms Pql.OpIR.C07_Parse_ir
